@@ -24,7 +24,7 @@ ASSUMPTIONS = ['slice-level operators are decided by C10-C13, C16 (here they ser
 
 CONFIGS = [
     {'npts': [6, 8, 7, 6], 'start': 'flux_surface', 'iota': 0.0, 'mn': [2, 1]},
-    {'npts': [6, 8, 7, 6], 'start': 'v_parallel', 'iota': 0.8, 'mn': [3, -2], 'R0': 3.0},     # tight torus: several z cells per step, b_z strongly r dependent
+    {'npts': [6, 8, 7, 6], 'start': 'v_parallel', 'iota': 0.8, 'mn': [3, -2], 'R0': 3.0, 'chi': 1},     # chi=1: the m=0 mode has its own stiffness matrix wherever the theta modes are split; tight torus: several z cells per step, b_z strongly r dependent
     {'npts': [5, 8, 9, 6], 'start': 'poloidal', 'iota': 'profile', 'mn': [2, 1], 'deg': [3, 3, 4, 2]},     # z and v with their own spline degree (Spline2D needs theta and r both cubic-uniform or both not)
     {'npts': [7, 5, 8, 7], 'start': 'v_parallel', 'iota': 0.8, 'mn': [2, 1]},
 ]
@@ -276,7 +276,7 @@ def _pipeline(cfg, nprocs, stages='all'):
             viol.append('wiring:density')
         density.getPerturbedRho(f, rho)
         # ---- quasi-neutrality pipeline
-        qn = QuasiNeutralitySolver(eta[:3], 7, spl[0], c, chi=0)
+        qn = QuasiNeutralitySolver(eta[:3], 7, spl[0], c, chi=cfg.get('chi', 0))
         qn.getModes(rho)
         rho.setLayout('mode_solve')
         if phi.currentLayout != 'mode_solve':
